@@ -625,8 +625,9 @@ class C17Oracle(BaseOracle):
 
     def __init__(self, world, plan):
         super().__init__(world, plan)
+        from .batch import C05ResumedOracle
         self.subs = [C01Oracle(world, plan), C02Oracle(world, plan, lenient_first=True),
-                     C03Oracle(world, plan, lenient_first=True)]
+                     C03Oracle(world, plan, lenient_first=True), C05ResumedOracle(world, plan)]
         self.faults_seen = 0
         self.snap = None
 
